@@ -261,6 +261,18 @@ class ListS(Spec):
             ex.prove(st, label + ':len', self.lenpred(v.length()), line)
         off = 0
         for k, sg in enumerate(v.segs):
+            if isinstance(sg, Many):
+                # memoised first / last elements may have been mutated in
+                # place: they are checked like explicit elements
+                for nm, e in (('first', sg.first), ('last', sg.last)):
+                    if e is not None:
+                        g = st.clone()
+                        g.assume(zint(sg.ln) > 0)
+                        from .builtins import _find_obj
+                        e2 = _find_obj(g, e.oid) if isinstance(e, Obj) \
+                            else e
+                        self.elem.check(ex, g, e2 if e2 is not None else e,
+                                        '%s:seg%d:%s' % (label, k, nm), line)
             if isinstance(sg, Single):
                 self.elem.check(ex, st, sg.obj, '%s:e%d' % (label, k), line)
                 if self.indexed:
